@@ -2,10 +2,12 @@
 SPECIFICATION GSpec
 CONSTANTS
   NGates <- G111
+  BigRec <- Big100
   NBufs = 3
   ResetOnGet = TRUE
   PutAfterWrite = TRUE
   WriteUnderLock = TRUE
   SingleWrite = TRUE
+  RebindOnLarge = FALSE
 INVARIANTS Emit OneWriter LinesCorrect BufExclusive
 CHECK_DEADLOCK FALSE
